@@ -544,6 +544,9 @@ __CPROVER_requires(g_made == 0 && N >= 2 && N < (1UL << 32) && kSharedCount <= N
 __CPROVER_assigns(g_made, g_kind, g_nodes, g_sticky, g_on, g_exec, g_over)
 /* one awaiter over exactly the given futures, of the flavour the function names (sticky / on executor e), with an event that has a callback node for every shared handle */
 __CPROVER_ensures(g_made == 1 && g_over == %s && g_sticky == %d && g_on == %d && (%d ? g_exec == e : 1) && RET != 0)
+/* C20: co_await of plain futures allocates nothing: the only event class with heap storage (DynamicSharedEvent: a vector of helper nodes) is chosen only for a range of SharedFutures;
+   the static forms keep their helper nodes inside the awaiter (std::array), the plain event has none */
+__CPROVER_ensures(g_kind == EV_DYNAMIC_SHARED ==> (SHARED_HANDLES > 0))
 {''' % ('count' if rng else 'N', sticky, on, on) + c + '''}
 void harness(void) { g_made = 0; N = nondet_ulong(); kSharedCount = nondet_ulong(); count = nondet_ulong(); kShared = nondet_uchar() & 1; void* e; F(e, 0);
   if (SHARED_HANDLES) VF_CANARY("some shared handles"); else VF_CANARY("no shared handle"); }
@@ -556,7 +559,8 @@ void harness(void) { g_made = 0; N = nondet_ulong(); kSharedCount = nondet_ulong
     SEL = {'C12': r'coro/(PromiseType\.|PromiseTypeDeleter|Destroy\.|Transfer)',                       # coroutine Task: nothing before start, started by co_await / Here
            'C05': r'coro/(OnAwaiter|AwaitOn|MultiAwaitOn|wrapper\.AwaitOn|Yield|CurrentAwaiter)',         # resumes where told
            'C06': r'coro/(AwaitSingleAwaiter\.shared1|SetCallbacks|wrapper\.)',                         # shared sources: a node per shared handle, const read
-           'C03': r'coro/(PromiseType\.(Call|Drop)|PromiseTypeDeleter|Destroy\.)'}                      # the coroutine frame is destroyed exactly once
+           'C03': r'coro/(PromiseType\.(Call|Drop)|PromiseTypeDeleter|Destroy\.)',                     # the coroutine frame is destroyed exactly once
+           'C20': r'coro/wrapper\.'}                                                                     # which event class an await builds: heap storage only for ranges of SharedFutures
     if getattr(ctx, 'prop', None) in SEL:
         out = [j for j in out if re.match(SEL[ctx.prop], j.name)]
     return out
